@@ -381,7 +381,10 @@ def call_once(ctx, pat, mode, attempt):
             pos_args.append(v)
             args_desc.append(("S", nmv))
         elif k == "OptVar":
-            if pname in pat["opts"]:
+            if pname in pat.get("falsy", {}):
+                pos_args.append(pat["falsy"][pname])          # a FALSY object that is neither None nor a Var: no way of omitting the input
+                args_desc.append(("O", None))
+            elif pname in pat["opts"]:
                 v, nmv = fresh(typ, f"i{i}")
                 pos_args.append(v)
                 args_desc.append(("O", nmv))
@@ -507,6 +510,7 @@ def observe(ctx, pat, stats):
 
 
 SHARED_FAILS = []
+FALSY_FAILS = []
 
 
 def patterns(ctx, rng=None, n_random=0):
@@ -682,6 +686,19 @@ def dump_entry(M, key, schema_by_name, rng=None, n_random=0, stats=None):
                                          "emitted_inputs": list(o["in"]), "prescribed_inputs": flat})
                 continue
             e["obs"].append(o)
+        # an optional input given as a falsy object that is neither None nor a Var ("" as in onnx.helper.make_node, (), 0): the slot would
+        # silently disappear and every later operand shift one schema slot to the left - the constructor must raise at the call
+        opt_inputs = [n for n, k in ctx.pos if k == "OptVar"]
+        for oi in opt_inputs:
+            for fv in ("", (), 0):
+                pat = {"label": f"falsy-optional:{oi}", "opts": frozenset(opt_inputs), "varlen": 1, "attrs": frozenset(), "variant": 0, "share": False,
+                       "falsy": {oi: fv}}
+                stats["falsy_optional_calls"] = stats.get("falsy_optional_calls", 0) + 1
+                try:
+                    call_once(ctx, pat, "typed", {})
+                except Exception:  # noqa: BLE001
+                    continue
+                FALSY_FAILS.append({"module": M.__name__, "operator": key, "input": oi, "value": repr(fv)})
     return e
 
 
